@@ -345,7 +345,10 @@ def run_property(ctx, spec):
             mt = set(mm["expected"].get("bad", [])) if isinstance(mm["expected"], dict) else set()
             mm["tags"] = sorted(mt)
             mm["stage"] = st["name"]
-            if tags is not None and mt and not (mt & tags):
+            if "select" in spec:
+                if not spec["select"](mm):
+                    continue
+            elif tags is not None and mt and not (mt & tags):
                 continue
             if tags is not None and not mt and mm["event"].get("op") not in spec.get("ops_untagged", ()):
                 # untagged mismatch (crash, unknown op, ...) counts for every property using the stage
